@@ -288,7 +288,7 @@ impl Circuit {
 
         // Parse input line
         // The conversion assumes that each party provides one of the inputs in ascending order of their party IDs.
-        let (input_gates, input_wires_num) = {
+        let (input_gates, input_wires_num, mut wires_map, mut is_assigned) = {
             let (parts, line_str) = parse_line(lines.next())?;
             if parts.len() < 2 {
                 return Err(FromBristolError::MalformedLine(line_str));
@@ -312,7 +312,15 @@ impl Circuit {
             if wires_num - input_wires > lines.len() {
                 return Err(FromBristolError::MalformedLine(line_str));
             }
-            (input_gates, input_wires)
+            // (the number of input wires is not bounded by the file: a number of wires that cannot be
+            // allocated is an error of the file)
+            // The wires map maps the wires in the Bristol format to the wires in the Garble format,
+            // a wire can only be read after it was assigned:
+            let (Some(wires_map), Some(is_assigned)) = (table(wires_num, 0), table(wires_num, false))
+            else {
+                return Err(FromBristolError::MalformedLine(line_str));
+            };
+            (input_gates, input_wires, wires_map, is_assigned)
         };
 
         // Parse output line
@@ -336,13 +344,13 @@ impl Circuit {
             let Some(first_output_wire) = wires_num.checked_sub(num_output_wires) else {
                 return Err(FromBristolError::MalformedLine(line_str));
             };
-            (vec![0; num_output_wires], first_output_wire)
+            let Some(output_gates) = table(num_output_wires, 0) else {
+                return Err(FromBristolError::MalformedLine(line_str));
+            };
+            (output_gates, first_output_wire)
         };
 
-        // Create the wires map to map the wires in the Bristol format to the wires in the Garble format.
-        let mut wires_map = vec![0; wires_num];
-        // a wire can only be read after it was assigned (the input wires are assigned by the parties):
-        let mut is_assigned = vec![false; wires_num];
+        // The input wires are assigned by the parties:
         let input_wires = wires_map.iter_mut().zip(is_assigned.iter_mut());
         for (i, (wire, is_assigned)) in input_wires.take(input_wires_num).enumerate() {
             *wire = i;
@@ -440,6 +448,15 @@ impl Circuit {
             output_gates,
         })
     }
+}
+
+/// A table with `len` entries of `value`, `None` if a table of this size cannot be allocated (the sizes
+/// of the tables come from the file).
+fn table<T: Clone>(len: usize, value: T) -> Option<Vec<T>> {
+    let mut table = Vec::new();
+    table.try_reserve_exact(len).ok()?;
+    table.resize(len, value);
+    Some(table)
 }
 
 /// Sums up the numbers of a line of the file, `None` if the sum does not fit into a `usize`.
